@@ -39,12 +39,18 @@ LEVEL_TEXT = (
     "whatever np.any is for the other points), every shape requirement holds, and - under the SciPy contract - it returns exactly "
     "the rows of the generated recursion for every l_max and all angles ('both implementations agree'); the window of the angle "
     "reduction ([0, pi] closed; azimuth shift exactly where sin(phi) < 0) and the windows of the cotangent rule / Jacobian "
-    "conventions are theorems about the regenerated constants."
+    "conventions are theorems about the regenerated constants. Round 6: an AST certificate of the six routines "
+    "(Gen/HarmonicsEffects.lean: names that may alias an argument, names written in place, accesses of a part of the points axis) "
+    "is regenerated on every run, also for a source the statement-wise translators refuse; proved over it: no routine writes in place "
+    "through a name that may alias an argument, no routine addresses a part of the points axis or derives a loop bound from the number "
+    "of points; over the generated SciPy routine: column j depends on (theta_j, phi_j) only although np.any(outside) reads every point, "
+    "and the answer on a concatenation of point sets is the concatenation of the answers; over the generated solid_harmonics: row (l, m) "
+    "= sqrt(4 pi/(2l+1)) r^l Y_lm for every l <= l_max."
 )
 TECHNIQUE = ("Lean 4 proof (loop invariant of the in-place recursion, closed forms l<=3, symmetry, HasDerivAt, "
              "round trip, Jacobian) + differential correspondence + mpmath (50 digits) exploration of the all-degree clauses")
 GEN = ["harmonics"]
-LEAN_MODULES = ["GridVerif.Props.C08", "GridVerif.Props.C08.Gen", "GridVerif.Props.C08.Scipy", "GridVerif.Props.C08.Windows"]
+LEAN_MODULES = ["GridVerif.Props.C08", "GridVerif.Props.C08.Gen", "GridVerif.Props.C08.Scipy", "GridVerif.Props.C08.Windows", "GridVerif.Props.C08.Effects"]
 THEOREMS = [
     "GridVerif.C08.row_index_bij",
     "GridVerif.C08.ylm_rows_spec",
@@ -77,6 +83,12 @@ THEOREMS = [
     "GridVerif.C08.scipy_agrees_with_recursion",
     "GridVerif.C08.scipy_angle_window",
     "GridVerif.C08.gen_threshold_windows",
+    "GridVerif.C08.gen_effects_routines",
+    "GridVerif.C08.gen_arguments_not_written",
+    "GridVerif.C08.gen_points_axis_whole",
+    "GridVerif.C08.gen_scipy_column_independent",
+    "GridVerif.C08.gen_scipy_split_additive",
+    "GridVerif.C08.gen_solid_rows_spec",
 ]
 RULE = (
     "correspondence: generate_real_spherical_harmonics and generate_real_spherical_harmonics_scipy vs the Lean models "
